@@ -302,20 +302,20 @@ class WirelessNetworkInterface(NetworkInterface, ABC):
     airspace: AirSpace
     frequency: AirSpaceFrequency = FREQ_WIFI_2_4
 
-    def enable(self):
+    def enable(self) -> bool:
         """Attempt to enable the network interface."""
         if self.enabled:
-            return
+            return True
 
         if not self._connected_node:
             _LOGGER.warning(f"Interface {self} cannot be enabled as it is not connected to a Node")
-            return
+            return False
 
         if self._connected_node.operating_state != NodeOperatingState.ON:
             self._connected_node.sys_log.error(
                 f"Interface {self} cannot be enabled as the connected Node is not powered on"
             )
-            return
+            return False
 
         self.enabled = True
         self._connected_node.sys_log.info(f"Network Interface {self} enabled")
@@ -323,17 +323,19 @@ class WirelessNetworkInterface(NetworkInterface, ABC):
             hostname=self._connected_node.config.hostname, port_num=self.port_num, port_name=self.port_name
         )
         self.airspace.add_wireless_interface(self)
+        return True
 
-    def disable(self):
+    def disable(self) -> bool:
         """Disable the network interface."""
         if not self.enabled:
-            return
+            return True
         self.enabled = False
         if self._connected_node:
             self._connected_node.sys_log.info(f"Network Interface {self} disabled")
         else:
             _LOGGER.debug(f"Interface {self} disabled")
         self.airspace.remove_wireless_interface(self)
+        return True
 
     def send_frame(self, frame: Frame) -> bool:
         """
@@ -451,6 +453,7 @@ class IPWirelessNetworkInterface(WirelessNetworkInterface, Layer3Interface, ABC)
         super().enable()
         if hasattr(self._connected_node, "default_gateway_hello"):
             self._connected_node.default_gateway_hello()
+        return True
 
     @abstractmethod
     def receive_frame(self, frame: Frame) -> bool:
